@@ -1039,7 +1039,9 @@ var basicObjects = []*ObjectSchema{
 			),
 			"multipliers": NewPropertySchema(
 				NewMapSchema(
-					NewIntSchema(nil, nil, nil),
+					// A multiplier is a positive factor of the base unit. Zero divides by zero when
+					// formatting and a negative one yields an invalid parsing expression.
+					NewIntSchema(IntPointer(1), nil, nil),
 					NewRefSchema("Unit", nil),
 					nil,
 					nil,
